@@ -373,11 +373,17 @@ impl<'a, 'tcx> Extractor<'a, 'tcx> {
                         continue;
                     }
                     let body = tcx.optimized_mir(did);
-                    self.body(did, body, &format!("{kind:?}"));
+                    self.body(did, body, &format!("{kind:?}"), None);
+                    for (pi, pb) in tcx.promoted_mir(did).iter_enumerated() {
+                        self.body(did, pb, "promoted", Some(pi.as_usize()));
+                    }
                 }
                 DefKind::Static { .. } | DefKind::Const { .. } | DefKind::AssocConst { .. } => {
                     let body = tcx.mir_for_ctfe(did);
-                    self.body(did, body, &format!("{}", kind.descr(did.to_def_id())));
+                    self.body(did, body, &format!("{}", kind.descr(did.to_def_id())), None);
+                    for (pi, pb) in tcx.promoted_mir(did).iter_enumerated() {
+                        self.body(did, pb, "promoted", Some(pi.as_usize()));
+                    }
                 }
                 _ => {}
             }
@@ -820,10 +826,13 @@ impl<'a, 'tcx> Extractor<'a, 'tcx> {
         }
     }
 
-    fn body(&mut self, did: LocalDefId, body: &Body<'tcx>, kind: &str) {
+    fn body(&mut self, did: LocalDefId, body: &Body<'tcx>, kind: &str, promoted: Option<usize>) {
         let tcx = self.tcx;
         let mut s = String::with_capacity(4096);
-        let id = self.path(did.to_def_id());
+        let mut id = self.path(did.to_def_id());
+        if let Some(pi) = promoted {
+            id = format!("{id}::promoted[{pi}]");
+        }
         let _ = write!(s, "{{\"k\":\"fn\",\"id\":{},\"kind\":{}", esc(&id), esc(kind));
         let sp = tcx.def_span(did);
         let _ = write!(s, ",\"span\":{}", esc(&self.span(sp)));
